@@ -505,7 +505,13 @@ def rule_who(ctx, rep):
             found = {}
             for f in m.defined():
                 for i in pat.writes(f, glob=g):        # plain stores and atomic RMWs (IR or inline asm)
-                    found.setdefault(i.origin_fn if i.origin_fn not in ("__uatomic_cmpxchg", "__uatomic_exchange") else next((c for c in i.scope_chain if not c.startswith("__uatomic")), i.origin_fn), []).append(i)
+                    org = i.origin_fn if i.origin_fn not in ("__uatomic_cmpxchg", "__uatomic_exchange") else next((c for c in i.scope_chain if not c.startswith("__uatomic")), i.origin_fn)
+                    if org not in allowed:
+                        # a helper extracted from a designated writer writes on its behalf: attribute the write to the designated function it is inlined into
+                        via = [c for c in list(i.scope_chain) + [f.name] if c in allowed]
+                        if via:
+                            org = via[0]
+                    found.setdefault(org, []).append(i)
                     rep.touch(f)
             pat.require(found, "%s: no writer of %s found" % (fl, g))
             extra = sorted(set(found) - allowed)
